@@ -170,7 +170,7 @@ theorem mergeEvent_eq (now : Int) (ev : Event) (h : List Entry) (pos : Nat) (hp 
     subst this; simp [mergeRev]
   · simp [h0]
 
-theorem resize_eq (s : State) (hwf : WF s) :
+theorem resize_eq (s : State) (_hwf : WF s) :
     (if s.hist.length ≠ s.pos then s.hist.take s.pos else s.hist) = s.hist.take s.pos := by
   by_cases h : s.hist.length = s.pos
   · simp only [h, ne_eq, not_true_eq_false, if_false]
@@ -261,7 +261,7 @@ theorem set_comm (σ : Store) (a b : Bytes) (v w : UInt32) (h : a ≠ b) :
   funext c
   by_cases h1 : c = a
   · have h2 : ¬ c = b := fun hcb => h (h1.symm.trans hcb)
-    simp [Store.set, h1, h2, h]
+    simp [Store.set, h1, h]
   · by_cases h2 : c = b
     · have : ¬ b = a := fun hba => h hba.symm
       simp [Store.set, h2, this]
@@ -326,8 +326,8 @@ theorem RChain_current : ∀ (l : List Entry) (σ : Store) (a : Bytes) (x : Entr
     intro σ a x hc hf
     obtain ⟨h1, h2⟩ := hc
     by_cases hy : y.2.addr = a
-    · simp [List.find?_cons, hy] at hf; subst hf; rw [← hy]; exact h1
-    · simp [List.find?_cons, hy] at hf
+    · simp [hy] at hf; subst hf; rw [← hy]; exact h1
+    · simp [hy] at hf
       have := ih _ a x h2 hf
       rw [set_other _ _ _ _ (fun h => hy h.symm)] at this
       exact this
@@ -626,4 +626,122 @@ theorem inv_record (now : Int) (a : Bytes) (tag : UInt8) (v : UInt32) (s : State
       rw [List.length_reverse] at this
       exact this
     · exact hfull
+
+theorem flatMap_replay_fit (l : List Entry) (hf : ∀ x ∈ l, fits x.2.addr = true) :
+    l.flatMap (fun x => replayMsg x.2) = l.map (fun x => redoMsg x.2) := by
+  induction l with
+  | nil => rfl
+  | cons x l ih =>
+    simp only [List.flatMap_cons, List.map_cons]
+    rw [replayMsg_fit _ (hf x (by simp)), ih (fun y hy => hf y (by simp [hy]))]; rfl
+
+theorem map_rewind_fit (l : List Entry) (hf : ∀ x ∈ l, fits x.2.addr = true) :
+    l.map (fun x => rewindMsg x.2) = l.map (fun x => undoMsg x.2) := by
+  apply List.map_congr_left
+  intro x hx; exact rewindMsg_fit _ (hf x hx)
+
+/-- the last `k` applied entries, newest first, are entries `pos-k .. pos-1` reversed -/
+theorem reverse_take_take (h : List Entry) (pos k : Nat) (hk : k ≤ pos) (hp : pos ≤ h.length) :
+    (h.take pos).reverse.take k = ((h.drop (pos - k)).take k).reverse := by
+  have h1 : h.take pos = h.take (pos - k) ++ (h.drop (pos - k)).take k := by
+    have : (h.drop (pos - k)).take k = (h.take pos).drop (pos - k) := by
+      rw [List.drop_take]; congr 1; omega
+    rw [this]
+    have : h.take (pos - k) = (h.take pos).take (pos - k) := by
+      rw [List.take_take]; congr 1; omega
+    rw [this, List.take_append_drop]
+  rw [h1, List.reverse_append]
+  have hl : ((h.drop (pos - k)).take k).reverse.length = k := by
+    simp; omega
+  rw [List.take_append_of_le_length (by omega), List.take_of_length_le (by omega)]
+
+theorem find_reverse_none (l : List Entry) (p : Entry → Bool) (h : l.reverse.find? p = none) :
+    l.find? p = none := by
+  rw [List.find?_eq_none] at h ⊢
+  intro x hx; exact h x (by simpa using hx)
+
+/-- The run-time facts the application-level theorems need. -/
+structure Good (A : App) : Prop where
+  wf   : WF A.u
+  size : A.u.hist.length ≤ Generated.maxHistory
+  fit  : AddrsFit A.u
+  inv  : Inv A.u A.σ
+
+theorem good_init (σ0 : Store) (t0 : Int) : Good (App.init σ0 t0) :=
+  ⟨by simp [App.init, Undo.init, WF], by simp [App.init, Undo.init],
+   by intro x hx; simp [App.init, Undo.init] at hx,
+   by simp [App.init, Undo.init, Inv, applied, undone, RChain, Chain]⟩
+
+theorem seek_total (s : State) (hw : WF s) (d : Int) : ∃ r, seekHistory s d = some r := by
+  rcases Int.eq_nat_or_neg d with ⟨k, rfl | rfl⟩
+  · exact ⟨_, seek_pos s hw k⟩
+  · exact ⟨_, seek_neg s hw k⟩
+
+theorem size_record (now : Int) (ev : Event) (s : State) (hwf : WF s)
+    (hs : s.hist.length ≤ Generated.maxHistory) :
+    (recordEvent now ev s).hist.length ≤ Generated.maxHistory := by
+  rcases record_size_le now ev s hwf with h | h
+  · exact h
+  · unfold WF at hwf; omega
+
+theorem wf_record (now : Int) (ev : Event) (s : State) (hwf : WF s) : WF (recordEvent now ev s) := by
+  unfold WF; rw [record_pos_size now ev s hwf]; exact Nat.le_refl _
+
+theorem good_step (A A' : App) (o : Op) (ms : List Emit) (hg : Good A)
+    (hfit : OpFit o)
+    (h : A.step o = some (A', ms)) : Good A' := by
+  cases o with
+  | set a tag v =>
+    simp only [App.step] at h
+    split at h
+    · simp at h; obtain ⟨rfl, _⟩ := h; exact hg
+    · simp at h; obtain ⟨rfl, _⟩ := h
+      exact ⟨wf_record _ _ _ hg.wf, size_record _ _ _ hg.wf hg.size,
+             fit_record _ _ _ hg.wf hg.fit hfit, inv_record _ a tag v _ _ hg.wf hg.inv⟩
+  | seek k =>
+    simp only [App.step] at h
+    cases hs : seekHistory A.u k with
+    | none => simp [hs] at h
+    | some r =>
+      obtain ⟨u', ms'⟩ := r
+      simp [hs] at h; obtain ⟨rfl, rfl⟩ := h
+      have hh := seek_hist A.u u' k ms' hg.wf hs
+      refine ⟨hh.2, by show u'.hist.length ≤ _; rw [hh.1]; exact hg.size,
+              by intro x hx; exact hg.fit x (by rw [← hh.1]; exact hx), ?_⟩
+      exact inv_seek A.u u' k ms' A.σ hg.fit hg.inv hs
+  | tick d =>
+    simp only [App.step] at h
+    simp at h; obtain ⟨rfl, _⟩ := h
+    exact ⟨hg.wf, hg.size, hg.fit, hg.inv⟩
+
+theorem step_total (A : App) (o : Op) (hw : WF A.u) : ∃ r, A.step o = some r := by
+  cases o with
+  | set a tag v => simp only [App.step]; split <;> exact ⟨_, rfl⟩
+  | seek k =>
+    obtain ⟨r, hr⟩ := seek_total A.u hw k
+    exact ⟨_, by simp only [App.step, hr, Option.map_some]; rfl⟩
+  | tick d => exact ⟨_, rfl⟩
+
+theorem run_good : ∀ (ops : List Op) (A : App), OpsFit ops → Good A →
+    ∃ A', A.run ops = some A' ∧ Good A' := by
+  intro ops
+  induction ops with
+  | nil => intro A _ hg; exact ⟨A, rfl, hg⟩
+  | cons o ops ih =>
+    intro A hf hg
+    obtain ⟨⟨A1, ms⟩, hr⟩ := step_total A o hg.wf
+    have hfo : OpFit o ∧ OpsFit ops :=
+      ⟨hf o (by simp), fun x hx => hf x (by simp [hx])⟩
+    have hg1 := good_step A A1 o ms hg hfo.1 hr
+    obtain ⟨A', hr', hg'⟩ := ih A1 hfo.2 hg1
+    exact ⟨A', by simp [App.run, hr, hr'], hg'⟩
+
+theorem reachable_wf_size (s : State) (h : Reachable s) :
+    WF s ∧ s.hist.length ≤ Generated.maxHistory := by
+  induction h with
+  | init => simp [WF, Undo.init]
+  | record now ev _ ih => exact ⟨wf_record _ _ _ ih.1, size_record _ _ _ ih.1 ih.2⟩
+  | seek d ms _ hs ih =>
+    have := seek_hist _ _ d ms ih.1 hs
+    exact ⟨this.2, by rw [this.1]; exact ih.2⟩
 end Rtosc.Undo
